@@ -129,18 +129,25 @@ static std::string split_str(const Split &sp) {
 }
 
 // does the (hits/dets) text name some index twice?  (declared don't-care for bit values, DESIGN C09)
+// Tokens are compared after normalisation: a carriage return ends a token like a blank does, and leading zeros of the
+// number are dropped ("07" names index 7).
 static bool has_duplicate_tokens(const std::string &bytes) {
     std::set<std::string> seen;
     std::string tok;
     bool dup = false;
     auto flush = [&]() {
         if (!tok.empty()) {
-            if (!seen.insert(tok).second) dup = true;
+            size_t i = 0;
+            while (i < tok.size() && !isdigit((unsigned char)tok[i])) i++;
+            size_t j = i;
+            while (j + 1 < tok.size() && tok[j] == '0' && isdigit((unsigned char)tok[j + 1])) j++;
+            std::string norm = tok.substr(0, i) + tok.substr(j);
+            if (!seen.insert(norm).second) dup = true;
             tok.clear();
         }
     };
     for (char c : bytes) {
-        if (c == ',' || c == ' ') flush();
+        if (c == ',' || c == ' ' || c == '\r' || c == '\t') flush();
         else if (c == '\n') { flush(); seen.clear(); }
         else tok.push_back(c);
     }
